@@ -15,7 +15,8 @@ import numpy as np
 
 from sim import drivers, harness, kernel, model, world
 from sim.kernel import KERNEL
-from . import common
+from . import common, stages
+from .stages import prepare, execute
 
 ID = 'C04'
 LEVEL = 'exploration'
@@ -33,8 +34,6 @@ ASSUMPTIONS = [
     'metadata/log/config entries (timestamps, durations, paths) are volatile by design and excluded from digests',
     'JSON outputs are compared parsed (key order of the query-marker JSON follows completion order; not a defect)',
 ]
-STAGES = ['mapping', 'mapping', 'mapping_mgr', 'stats', 'stats', 'refmarkers', 'pmask',
-          'pmask_markers', 'qmarkers', 'transpose']
 
 
 def shard_indices(shard, nshards, quota):
@@ -47,48 +46,8 @@ def shard_indices(shard, nshards, quota):
 # ---------------------------------------------------------------------------
 
 def gen(rng, tier, idx):
-    stage = STAGES[idx % len(STAGES)]
-    scn = {'stage': stage}
-    if stage in ('mapping', 'mapping_mgr'):
-        wp = world.draw_world_params(rng, single_top=False, q_all_zero=False)
-        wp['n_query'] = rng.choice([3, 5, 8, 12, 20])
-        scn['wp'] = wp
-        W = world.make_world(wp)
-        mcfg = common.draw_mapping_cfg(rng, W)
-        mcfg['n_processors'] = rng.randint(2, 6)
-        mcfg['chunk_size'] = rng.randint(1, max(1, wp['n_query'] // 2))
-        scn['cfg'] = mcfg
-    elif stage == 'stats':
-        wp = world.draw_world_params(rng, cells_per_leaf=[1, rng.choice([3, 6])],
-                                     n_unlabelled=rng.choice([0, 3]))
-        scn['wp'] = wp
-        scn['cfg'] = {'n_files': rng.randint(1, 3), 'encoding': rng.choice(['dense', 'csr', 'csc']),
-                      'rows_at_a_time': rng.randint(1, 9), 'n_processors': rng.randint(2, 6)}
-    elif stage in ('refmarkers', 'pmask', 'pmask_markers', 'qmarkers'):
-        wp = world.draw_world_params(rng, cells_per_leaf=[2, rng.choice([3, 6])], blocky=False,
-                                     degenerate=0.0, n_unlabelled=0, odd_names=False,
-                                     shared_names=False)
-        wp['n_leaves'] = rng.choice([3, 4, 5, 6, 8])
-        wp['depth'] = rng.choice([1, 2, 3])
-        if stage in ('pmask', 'pmask_markers'):
-            wp['n_leaves'] = rng.choice([6, 7, 8, 10])
-        if stage == 'qmarkers':
-            wp['n_leaves'] = rng.choice([5, 6, 8, 10])
-            wp['depth'] = rng.choice([2, 3, 3])
-            wp['single_top'] = False
-        wp['n_genes'] = rng.choice([8, 12, 16])
-        scn['wp'] = wp
-        scn['cfg'] = {'n_processors': rng.randint(2, 5), 'max_gb': rng.choice([1.0, 1e-6]),
-                      'exact_penetrance': rng.random() < 0.3,
-                      'n_valid': rng.choice([3, 10, 30] if stage != 'pmask_markers' else [2, 3, 8]),
-                      'p_th': rng.choice([0.01, 0.2, 0.5]), 'n_per_utility': rng.randint(1, 4),
-                      'q_subset': rng.random() < 0.5, 'n_per': 8,
-                      'behemoth_cutoff': rng.choice([0, 2, 5000000])}
-    else:
-        scn['mat'] = {'seed': rng.randrange(2 ** 31), 'n_rows': rng.randint(1, 12),
-                      'n_cols': rng.randint(2, 14), 'density': rng.choice([0.1, 0.4, 0.9]),
-                      'use_data': rng.random() < 0.6}
-        scn['cfg'] = {'n_processors': rng.randint(2, 5), 'max_gb': rng.choice([1.0, 1e-8])}
+    stage = stages.STAGES[idx % len(stages.STAGES)]
+    scn = stages.gen_stage(rng, stage)
     n_k = N_KERNELS[tier]
     ks = []
     for i in range(n_k):
@@ -107,182 +66,6 @@ def gen(rng, tier, idx):
 # ---------------------------------------------------------------------------
 # stage set-up and execution
 # ---------------------------------------------------------------------------
-
-def _quiet_fifo(fn, *a, **k):
-    """run a preparatory (not judged) stage under a plain FIFO scheduler"""
-    out, s = harness.run_call({'policy': 'fifo', 'seed': 0}, fn, *a, **k)
-    return out
-
-
-def _write_reference(sb, W, n_files, encoding):
-    n = len(W.ref_ids)
-    bounds = [0] + sorted(random.Random(n * 7 + n_files).sample(range(1, n), min(n_files - 1, n - 1))) \
-        + [n] if n > 1 else [0, n]
-    paths = []
-    for i in range(len(bounds) - 1):
-        a, b = bounds[i], bounds[i + 1]
-        p = sb.p('in', 'ref_%d.h5ad' % i)
-        world.write_h5ad(p, W.ref_X[a:b], W.ref_ids[a:b], W.genes, encoding=encoding)
-        paths.append(p)
-    return paths
-
-
-def prepare(scn, sb):
-    """write the inputs of the stage under test (fixed for all kernels of the scenario)"""
-    stage = scn['stage']
-    ctx = {}
-    if stage in ('mapping', 'mapping_mgr'):
-        W = world.make_world(scn['wp'])
-        ctx['W'] = W
-        ctx['paths'] = common.setup_mapping_inputs(sb, W, scn['cfg'])
-        if stage == 'mapping_mgr':
-            tax = W.tax
-            if scn['cfg'].get('flatten'):
-                tax = tax.flatten()
-            elif scn['cfg'].get('drop_level') in W.tax.hierarchy[:-1]:
-                tax = tax.drop_level(scn['cfg']['drop_level'])
-            ctx['tax_dict'] = tax.to_dict()
-            lookup = dict(W.markers)
-            if scn['cfg'].get('flatten'):
-                allm = sorted(set(g for v in lookup.values() for g in v))
-                lookup = {'None': allm}
-            cache = sb.p('in', 'marker_cache.h5')
-            out = drivers.outcome_of(drivers.make_marker_cache, lookup, W.genes, W.q_genes, cache,
-                                     ctx['tax_dict'], min_markers=scn['cfg']['min_markers'])
-            ctx['cache'] = cache if out[0] == 'ok' else None
-            ctx['prep_outcome'] = out
-    elif stage == 'stats':
-        W = world.make_world(scn['wp'])
-        ctx['W'] = W
-        ctx['ref_paths'] = _write_reference(sb, W, scn['cfg']['n_files'], scn['cfg']['encoding'])
-        ctx['tax_dict'] = W.tax.to_dict(W.leaf_cells())
-    elif stage in ('refmarkers', 'pmask', 'pmask_markers', 'qmarkers'):
-        W = world.make_world(scn['wp'])
-        ctx['W'] = W
-        ctx['stats'] = W.write_stats_file(sb.p('in', 'stats.h5'))
-        cfg = scn['cfg']
-        if stage == 'pmask_markers':
-            ctx['mask'] = sb.p('in', 'pmask.h5')
-            ctx['prep_outcome'] = _quiet_fifo(drivers.run_p_value_mask, ctx['stats'], ctx['mask'],
-                                              sb.p('scratch'), p_th=cfg['p_th'], n_per=cfg['n_per'],
-                                              n_processors=2)
-        if stage == 'qmarkers':
-            os.makedirs(sb.p('in', 'refm'), exist_ok=True)
-            ctx['prep_outcome'] = _quiet_fifo(drivers.run_reference_markers, [ctx['stats']],
-                                              sb.p('in', 'refm'), sb.p('scratch'), n_processors=2,
-                                              p_th=cfg['p_th'], n_valid=cfg['n_valid'],
-                                              exact_penetrance=cfg['exact_penetrance'])
-            ctx['refm'] = sb.p('in', 'refm', 'reference_markers.h5')
-            if cfg['q_subset']:
-                qg = [g for i, g in enumerate(W.genes) if i % 3 != 0] + ['extra_x']
-                ctx['q_genes'] = qg
-                world.write_h5ad(sb.p('in', 'q.h5ad'), np.zeros((2, len(qg))), ['a', 'b'], qg)
-    else:
-        import h5py
-        import scipy.sparse as sp
-        m = scn['mat']
-        r = np.random.default_rng(m['seed'])
-        A = (r.random((m['n_rows'], m['n_cols'])) < m['density']) * r.integers(1, 100, (m['n_rows'], m['n_cols']))
-        csr = sp.csr_matrix(A.astype(float))
-        p = sb.p('in', 'mat.h5')
-        with h5py.File(p, 'w') as f:
-            f.create_dataset('indices', data=csr.indices.astype(np.int64))
-            f.create_dataset('indptr', data=csr.indptr.astype(np.int64))
-            f.create_dataset('data', data=csr.data)
-        ctx['mat_path'] = p
-        ctx['n_cols'] = m['n_cols']
-    return ctx
-
-
-def execute(scn, sb, ctx, k_i, kk):
-    """one execution of the stage under kernel kk; returns (outcome, digest, sched list)"""
-    stage = scn['stage']
-    cfg = scn['cfg']
-    sub = 'r%d' % k_i
-    outd = sb.p('out', sub)
-    os.makedirs(outd, exist_ok=True)
-    sched = dict(kk['sched'])
-    n0 = len(KERNEL.calls)
-    if stage == 'mapping':
-        mcfg = dict(cfg, n_processors=kk.get('n_processors', cfg['n_processors']))
-        dcfg = common.mapping_driver_cfg(sb, ctx['paths'], mcfg, tag='out', out_sub=sub)
-        out, s = harness.run_call(sched, drivers.run_mapping, dcfg)
-        dig = None
-        if out[0] == 'ok':
-            blob = common.load_json(dcfg['extended_result_path'])
-            with open(dcfg['csv_result_path']) as f:
-                csv_rows = [ln for ln in f.read().splitlines() if not ln.startswith('#')]
-            dig = [harness.json_digest(blob), harness.h5_digest(dcfg['hdf5_result_path']),
-                   model.canonical_json(csv_rows)]
-    elif stage == 'mapping_mgr':
-        if ctx['cache'] is None:
-            return ctx['prep_outcome'], None, []
-        out, s = harness.run_call(
-            sched, drivers.run_type_assignment, ctx['paths']['query'], ctx['paths']['stats'],
-            ctx['cache'], ctx['tax_dict'], sb.p('scratch'), results_output_path=None,
-            n_processors=kk.get('n_processors', cfg['n_processors']), chunk_size=cfg['chunk_size'],
-            bootstrap_factor=cfg['bootstrap_factor'], bootstrap_iteration=cfg['bootstrap_iteration'],
-            rng_seed=cfg['rng_seed'], n_assignments=cfg['n_runners_up'] + 1, max_gb=cfg['max_gb'])
-        dig = None
-        if out[0] == 'ok':
-            from cell_type_mapper.utils.utils import clean_for_json
-            dig = harness.json_digest({'results': clean_for_json(out[1])})
-            out = ('ok', None)
-    elif stage == 'stats':
-        dst = os.path.join(outd, 'stats.h5')
-        out, s = harness.run_call(sched, drivers.run_precompute, ctx['ref_paths'], ctx['tax_dict'], dst,
-                                  sb.p('scratch'), rows_at_a_time=cfg['rows_at_a_time'],
-                                  n_processors=cfg['n_processors'])
-        dig = harness.h5_digest(dst) if out[0] == 'ok' else None
-    elif stage == 'refmarkers':
-        out, s = harness.run_call(sched, drivers.run_reference_markers, [ctx['stats']], outd,
-                                  sb.p('scratch'), n_processors=cfg['n_processors'],
-                                  max_gb=cfg['max_gb'], exact_penetrance=cfg['exact_penetrance'],
-                                  n_valid=cfg['n_valid'], p_th=cfg['p_th'])
-        dig = harness.h5_digest(os.path.join(outd, 'reference_markers.h5')) if out[0] == 'ok' else None
-    elif stage == 'pmask':
-        dst = os.path.join(outd, 'pmask.h5')
-        out, s = harness.run_call(sched, drivers.run_p_value_mask, ctx['stats'], dst, sb.p('scratch'),
-                                  p_th=cfg['p_th'], n_per=cfg['n_per'],
-                                  n_processors=cfg['n_processors'])
-        dig = harness.h5_digest(dst) if out[0] == 'ok' else None
-    elif stage == 'pmask_markers':
-        if ctx['prep_outcome'][0] != 'ok':
-            return ctx['prep_outcome'], None, []
-        dst = os.path.join(outd, 'markers_from_mask.h5')
-        out, s = harness.run_call(sched, drivers.run_markers_from_p_mask, ctx['stats'], ctx['mask'], dst,
-                                  sb.p('scratch'), n_processors=cfg['n_processors'],
-                                  max_gb=max(cfg['max_gb'], 1e-5), n_valid=cfg['n_valid'])
-        dig = harness.h5_digest(dst) if out[0] == 'ok' else None
-    elif stage == 'qmarkers':
-        if ctx['prep_outcome'][0] != 'ok':
-            return ctx['prep_outcome'], None, []
-        dst = os.path.join(outd, 'qm.json')
-        if cfg['behemoth_cutoff'] == 5000000:
-            out, s = harness.run_call(sched, drivers.run_query_markers, [ctx['refm']], dst,
-                                      sb.p('scratch'), n_processors=cfg['n_processors'],
-                                      n_per_utility=cfg['n_per_utility'],
-                                      query_path=sb.p('in', 'q.h5ad') if cfg['q_subset'] else None)
-            dig = harness.json_digest(dst) if out[0] == 'ok' else None
-        else:
-            out, s = harness.run_call(sched, drivers.run_marker_lookup, [ctx['refm']],
-                                      ctx.get('q_genes') or list(ctx['W'].genes), sb.p('scratch'),
-                                      n_processors=cfg['n_processors'],
-                                      n_per_utility=cfg['n_per_utility'],
-                                      behemoth_cutoff=cfg['behemoth_cutoff'])
-            dig = None
-            if out[0] == 'ok':
-                dig = harness.json_digest(out[1])
-                out = ('ok', None)
-    else:
-        dst = os.path.join(outd, 't.h5')
-        out, s = harness.run_call(sched, drivers.run_transpose_v2, ctx['mat_path'], dst, sb.p('scratch'),
-                                  ctx['n_cols'], use_data=scn['mat']['use_data'],
-                                  max_gb=cfg['max_gb'], n_processors=cfg['n_processors'])
-        dig = harness.h5_digest(dst) if out[0] == 'ok' else None
-    scheds = KERNEL.calls[n0:]
-    return out, dig, scheds
-
 
 def run(scn, sb):
     res = {'violations': [], 'probes': {}, 'faults': {}, 'interleavings': [], 'not_judged': {}}
@@ -417,7 +200,7 @@ def extra_evidence(records):
             'scenario_executions_by_stage': stages}
 
 
-def shrink(scn):
+def shrink(scn, violation=None):
     ks = scn['kernels']
     if len(ks) > 2:
         for i in range(1, len(ks)):
